@@ -29,6 +29,7 @@ const (
 	fieldOptionTypeTag       = int32(8)
 	extensionExtendeeTypeTag = int32(2)
 	fieldDefaultValueTypeTag = int32(7)
+	fieldJSONNameTypeTag     = int32(10)
 )
 
 var (
@@ -81,9 +82,10 @@ func field(token int32, fullSourcePath protoreflect.SourcePath, index int, _ boo
 		// For options, we add the full path and then return the options state to validate
 		// the path.
 		return options, []protoreflect.SourcePath{slices.Clone(fullSourcePath)}, nil
-	case fieldDefaultValueTypeTag:
-		// Default value is a terminal path, but was not already added to our associated paths,
-		// since default values are specific to proto2. Add the path and terminate.
+	case fieldDefaultValueTypeTag, fieldJSONNameTypeTag:
+		// Default value and json_name are terminal paths, but were not already added to our
+		// associated paths, since they are only present when explicitly set. Add the path
+		// and terminate.
 		return nil, []protoreflect.SourcePath{currentPath(fullSourcePath, index)}, nil
 	}
 	return nil, nil, newInvalidSourcePathError(fullSourcePath, "invalid field path")
